@@ -65,6 +65,7 @@ Definition n_query : bytes := Eval compute in s2b "query".
 (* the switch at the head of resource.Event: panic text per reserved name *)
 Definition reserved_msg (name : bytes) : option bytes :=
   if beq name n_change then Some (s2b "res: use ChangeEvent to send change events")
+  else if beq name n_create then Some (s2b "res: use CreateEvent to send create events")
   else if beq name n_delete then Some (s2b "res: ""delete"" is a reserved event name")
   else if beq name n_add then Some (s2b "res: use AddEvent to send add events")
   else if beq name n_remove then Some (s2b "res: use RemoveEvent to send remove events")
